@@ -41,6 +41,9 @@ ALPHA = {
     'to_expr': 2, 'drop': 5, 'gc': 4, 'gc_roots': 2, 'swap': 5, 'sift': 2,
     'reorder_to': 2, 'reorder_pairs': 1, 'declare': 2, 'add_var': 1,
     'undeclare': 3, 'find_or_add': 2, 'traverse': 1,
+    # copies to and from a second manager are one more route by which
+    # functions enter a manager
+    'xcopy': 3, 'peer': 2, 'file_roundtrip': 1, 'views': 1,
 }
 
 
